@@ -41,6 +41,9 @@ pub struct History {
     /// the accumulator comes from `Accumulator::default()` instead of `Error::accumulator()`: the same armed, empty state
     #[serde(default)]
     pub from_default: bool,
+    /// `extend` is handed an iterator that cannot tell its length in advance (`filter`, size_hint (0, Some(n)))
+    #[serde(default)]
+    pub lazy_extend: bool,
 }
 
 fn op() -> impl Strategy<Value = Op> {
@@ -80,7 +83,7 @@ pub fn history() -> impl Strategy<Value = History> {
         ],
         0..24,
     );
-    (prop_oneof![heavy, okish], end(), prop::bool::weighted(0.3), prop::bool::weighted(0.25)).prop_map(|(ops, end, repeat_labels, from_default)| History { ops, end, repeat_labels, from_default })
+    (prop_oneof![heavy, okish], end(), prop::bool::weighted(0.3), prop::bool::weighted(0.25), any::<bool>()).prop_map(|(ops, end, repeat_labels, from_default, lazy_extend)| History { ops, end, repeat_labels, from_default, lazy_extend })
 }
 
 /// The same histories decoded from bytes (for the coverage-guided driver).
@@ -108,7 +111,7 @@ pub fn history_from(d: &mut vmodel::dec::D) -> History {
         2 => End::IntoInner,
         _ => End::Drop,
     };
-    History { ops, end, repeat_labels: d.ratio(1, 3), from_default: d.ratio(1, 4) }
+    History { ops, end, repeat_labels: d.ratio(1, 3), from_default: d.ratio(1, 4), lazy_extend: d.bool() }
 }
 
 fn lbl(n: usize) -> String {
@@ -244,7 +247,18 @@ fn check_inner(ctx: &Ctx, h: &History) -> Result<(), Fail> {
                     es.push(e);
                     rec.push(l);
                 }
-                acc!().extend(es);
+                if h.lazy_extend {
+                    // the same errors through adapters that cannot promise a length: `filter` (lower bound 0), or - for
+                    // one error - the error itself, whose IntoIter keeps the default size_hint
+                    if es.len() == 1 && i % 2 == 0 {
+                        let only = es.pop().unwrap();
+                        acc!().extend(only);
+                    } else {
+                        acc!().extend(es.into_iter().filter(|_| true));
+                    }
+                } else {
+                    acc!().extend(es);
+                }
                 if *k > 0 {
                     recording_ops += 1;
                 }
@@ -499,6 +513,7 @@ fn unwind_probes(ctx: &Ctx, count: usize) -> bool {
             end: End::DropDuringUnwind,
             repeat_labels: false,
             from_default: false,
+            lazy_extend: false,
         };
         ctx.nontrivial(&(recorded, mode, "unwind"));
         ctx.class("end:DropDuringUnwind");
@@ -526,16 +541,16 @@ fn unwind_probes(ctx: &Ctx, count: usize) -> bool {
 
 fn regress_cases() -> Vec<History> {
     vec![
-        History { ops: vec![], end: End::Finish, repeat_labels: false, from_default: false },
-        History { ops: vec![], end: End::Drop, repeat_labels: false, from_default: false },
-        History { ops: vec![Op::Push], end: End::Drop, repeat_labels: false, from_default: false },
-        History { ops: vec![Op::Push, Op::HandleErr, Op::Extend(2)], end: End::Drop, repeat_labels: false, from_default: false },
-        History { ops: vec![Op::Push], end: End::Finish, repeat_labels: false, from_default: false },
-        History { ops: vec![Op::Checkpoint, Op::Push, Op::Checkpoint], end: End::Finish, repeat_labels: false, from_default: false },
-        History { ops: vec![Op::Checkpoint, Op::Checkpoint], end: End::Drop, repeat_labels: false, from_default: false },
-        History { ops: vec![Op::Extend(3), Op::HandleInErr, Op::PushBundle(2)], end: End::FinishWith(7), repeat_labels: false, from_default: false },
-        History { ops: vec![Op::HandleOk(1), Op::HandleInOk(2), Op::Extend(0)], end: End::FinishWith(9), repeat_labels: false, from_default: false },
-        History { ops: vec![Op::Push, Op::Extend(1)], end: End::IntoInner, repeat_labels: false, from_default: false },
+        History { ops: vec![], end: End::Finish, repeat_labels: false, from_default: false, lazy_extend: false },
+        History { ops: vec![], end: End::Drop, repeat_labels: false, from_default: false, lazy_extend: false },
+        History { ops: vec![Op::Push], end: End::Drop, repeat_labels: false, from_default: false, lazy_extend: false },
+        History { ops: vec![Op::Push, Op::HandleErr, Op::Extend(2)], end: End::Drop, repeat_labels: false, from_default: false, lazy_extend: false },
+        History { ops: vec![Op::Push], end: End::Finish, repeat_labels: false, from_default: false, lazy_extend: false },
+        History { ops: vec![Op::Checkpoint, Op::Push, Op::Checkpoint], end: End::Finish, repeat_labels: false, from_default: false, lazy_extend: false },
+        History { ops: vec![Op::Checkpoint, Op::Checkpoint], end: End::Drop, repeat_labels: false, from_default: false, lazy_extend: false },
+        History { ops: vec![Op::Extend(3), Op::HandleInErr, Op::PushBundle(2)], end: End::FinishWith(7), repeat_labels: false, from_default: false, lazy_extend: false },
+        History { ops: vec![Op::HandleOk(1), Op::HandleInOk(2), Op::Extend(0)], end: End::FinishWith(9), repeat_labels: false, from_default: false, lazy_extend: false },
+        History { ops: vec![Op::Push, Op::Extend(1)], end: End::IntoInner, repeat_labels: false, from_default: false, lazy_extend: false },
     ]
 }
 
